@@ -8,6 +8,7 @@ package validate
 // with refValid (ref_draft4.go).
 
 import (
+	"encoding/json"
 	"math"
 
 	"github.com/go-openapi/spec"
@@ -411,11 +412,15 @@ func HarnessC01Enum() {
 		}
 	}
 	var d interface{}
-	switch verifChoose(3) {
+	switch verifChoose(4) {
 	case 0:
 		d = genScalar()
 	case 1:
 		d = []interface{}{genNum()}
+	case 3: // a JSON number decoded with UseNumber, next to string members it must not be converted into
+		s.Enum = []interface{}{"A", "1"}
+		d = []json.Number{"65", "1", "2"}[verifChoose(3)]
+		verifKF("C01-KF-ENUM-CONVERT", true)
 	default:
 		d = map[string]interface{}{"a": genNum()}
 	}
